@@ -23,8 +23,10 @@ recording order.  Event tokens:
 The driver (a) runs the strict monitor `IceSpec.C13.histViolation` on the history and (b) checks that
 the history is the observable projection of an execution of `IceModel.WriteAbort.step`: the internal
 (unobservable) atomic steps are searched — the set of model states compatible with the prefix is
-closed under internal steps after every event; the search is bounded by the history.  Model output
-`recorded`, or `rejected:<position>:<event>` when no execution of the model has this projection.
+closed under internal steps after every event; the search is bounded by the history and by `closureFuel`
+expansions per event.  Model output `recorded`, or `rejected:<position>:<event>` when no execution of the model has
+this projection (every closure complete); a closure that runs out of fuel makes the line INCONCLUSIVE (`recorded` +
+`Res.inconclusive`).
 -/
 namespace Driver.WriteAbort
 open IceModel.WriteAbort IceSpec.C13 Driver
@@ -200,16 +202,19 @@ def histLine (toks : List String) : Res :=
   match toks.mapM parseEv with
   | none => bad "writeabort hist: unparsable event"
   | some evs =>
-    let out := match member evs with
-      | none => "recorded"
+    -- the membership search is bounded (`closureFuel` expansions of hidden steps per event): running out of budget
+    -- is INCONCLUSIVE, never a rejection — the history is then judged by the spec monitor alone and the line is
+    -- counted (`Res.inconclusive` → `INCONCLUSIVE` line of the driver).  A genuine rejection (`some "<pos>"`) is only
+    -- produced when EVERY closure up to that position was complete, i.e. on a fully explored frontier.
+    let (out, inc) := match member evs with
+      | none => ("recorded", none)
       | some why =>
-        -- the membership search is bounded (`closureFuel` hidden-step closures per event): running out of budget
-        -- is INCONCLUSIVE, never a rejection — the history is then judged by the spec monitor alone
-        if why.endsWith "search-budget" then "recorded"
+        if why.endsWith "search-budget" then
+          ("recorded", some s!"closure over hidden steps ran out of fuel ({closureFuel} expansions) at event {(why.splitOn ":").headD "?"}")
         else
           let pos := (why.splitOn ":").headD "" |>.toNat? |>.getD 0
-          s!"rejected:{why}:{toks.getD pos "?"}"
-    { model := out, monitor := histViolation {} evs, prop := "C13" }
+          (s!"rejected:{why}:{toks.getD pos "?"}", none)
+    { model := out, monitor := histViolation {} evs, prop := "C13", inconclusive := inc }
 
 -- @component writeabort
 abbrev State := Unit
